@@ -697,45 +697,45 @@ func (ss *mergeHandlerSession) handleSendCountMsg(msg *mergeHandlerSessionSendMs
 
 type mergeHandlerSessionOKState struct {
 	size int
-	// map[eventID][chIdx]msg
-	s map[string][]*ServerOKMsg
+	// map[eventID][request][chIdx]msg, one row per EVENT in flight, oldest first
+	s map[string][][]*ServerOKMsg
 }
 
 func newMergeHandlerSessionOKState(size int) *mergeHandlerSessionOKState {
 	return &mergeHandlerSessionOKState{
 		size: size,
-		s:    make(map[string][]*ServerOKMsg),
+		s:    make(map[string][][]*ServerOKMsg),
 	}
 }
 
 func (stat *mergeHandlerSessionOKState) TrySetEventID(eventID string) {
-	if len(stat.s[eventID]) > 0 {
-		return
-	}
-	stat.s[eventID] = make([]*ServerOKMsg, stat.size)
+	stat.s[eventID] = append(stat.s[eventID], make([]*ServerOKMsg, stat.size))
 }
 
 func (stat *mergeHandlerSessionOKState) SetMsg(chIdx int, msg *ServerOKMsg) {
-	msgs := stat.s[msg.EventID]
-	if len(msgs) == 0 {
-		return
+	// a reply answers the oldest request the child has not answered yet
+	for _, msgs := range stat.s[msg.EventID] {
+		if msgs[chIdx] == nil {
+			msgs[chIdx] = msg
+			return
+		}
 	}
-	msgs[chIdx] = msg
 }
 
 func (stat *mergeHandlerSessionOKState) Ready(eventID string) bool {
-	msgs := stat.s[eventID]
-	if len(msgs) == 0 {
+	rows := stat.s[eventID]
+	if len(rows) == 0 {
 		return false
 	}
-	return !slices.Contains(msgs, nil)
+	return !slices.Contains(rows[0], nil)
 }
 
 func (stat *mergeHandlerSessionOKState) Msg(eventID string) *ServerOKMsg {
-	msgs := stat.s[eventID]
-	if len(msgs) == 0 {
+	rows := stat.s[eventID]
+	if len(rows) == 0 {
 		panicf("invalid eventID %s", eventID)
 	}
+	msgs := rows[0]
 
 	var oks, ngs []*ServerOKMsg
 	for _, msg := range msgs {
@@ -762,6 +762,10 @@ func joinServerOKMsgs(msgs ...*ServerOKMsg) *ServerOKMsg {
 }
 
 func (stat *mergeHandlerSessionOKState) ClearEventID(eventID string) {
+	if rows := stat.s[eventID]; len(rows) > 1 {
+		stat.s[eventID] = rows[1:]
+		return
+	}
 	delete(stat.s, eventID)
 }
 
@@ -867,45 +871,51 @@ func (stat *mergeHandlerSessionReqState) ClearSubID(subID string) {
 
 type mergeHandlerSessionCountState struct {
 	size int
-	// map[subID][chIDx]msg
-	counts map[string][]*ServerCountMsg
+	// map[subID][request][chIdx]msg, one row per COUNT in flight, oldest first
+	counts map[string][][]*ServerCountMsg
 }
 
 func newMergeHandlerSessionCountState(size int) *mergeHandlerSessionCountState {
 	return &mergeHandlerSessionCountState{
 		size:   size,
-		counts: make(map[string][]*ServerCountMsg),
+		counts: make(map[string][][]*ServerCountMsg),
 	}
 }
 
 func (stat *mergeHandlerSessionCountState) SetSubID(subID string) {
-	stat.counts[subID] = make([]*ServerCountMsg, stat.size)
+	stat.counts[subID] = append(stat.counts[subID], make([]*ServerCountMsg, stat.size))
 }
 
 func (stat *mergeHandlerSessionCountState) SetCountMsg(chIdx int, msg *ServerCountMsg) {
-	counts := stat.counts[msg.SubscriptionID]
-	if len(counts) == 0 {
-		return
+	// a reply answers the oldest request the child has not answered yet
+	for _, counts := range stat.counts[msg.SubscriptionID] {
+		if counts[chIdx] == nil {
+			counts[chIdx] = msg
+			return
+		}
 	}
-	counts[chIdx] = msg
 }
 
 func (stat *mergeHandlerSessionCountState) Ready(subID string, chIdx int) bool {
-	counts := stat.counts[subID]
-	if len(counts) == 0 {
+	rows := stat.counts[subID]
+	if len(rows) == 0 {
 		return false
 	}
-	return !slices.Contains(counts, nil)
+	return !slices.Contains(rows[0], nil)
 }
 
 func (stat *mergeHandlerSessionCountState) Msg(subID string) *ServerCountMsg {
 	return slices.MaxFunc(
-		stat.counts[subID],
+		stat.counts[subID][0],
 		func(a, b *ServerCountMsg) int { return cmp.Compare(a.Count, b.Count) },
 	)
 }
 
 func (stat *mergeHandlerSessionCountState) ClearSubID(subID string) {
+	if rows := stat.counts[subID]; len(rows) > 1 {
+		stat.counts[subID] = rows[1:]
+		return
+	}
 	delete(stat.counts, subID)
 }
 
